@@ -278,6 +278,39 @@ fn check_indicator(d: &reg::IDesc, cfg: &dyn reg::DC, cs: &[Candle], seed: u64, 
 			r.cell("api:IndicatorInstance::over(chunked)");
 		}
 	}
+	// chunked evaluation through the dynamic-dispatch API, `over` on chunks interleaved with single `next` calls
+	for _ in 0..nchunkings {
+		let chunks = chunks_for(&mut rng, cs.len());
+		let res = guard(|| {
+			let mut i = cfg.as_dyn().init(&cs[0]).ok()?;
+			let mut out = Vec::new();
+			let mut pos = 0;
+			for (ci, &c) in chunks.iter().enumerate() {
+				let end = (pos + c).min(cs.len());
+				if ci % 3 == 2 {
+					for x in &cs[pos..end] {
+						out.push(i.next(x));
+					}
+				} else {
+					out.extend(i.over(&cs[pos..end].to_vec()));
+				}
+				pos = end;
+			}
+			out.extend(i.over(&cs[pos..].to_vec()));
+			Some(out)
+		});
+		match res {
+			Ok(Some(v)) => {
+				r.eval(v.len() as u64);
+				if !eq(&v, &rf) {
+					r.violate(&format!("C09|{}|IndicatorInstanceDyn::over(chunked)|differs-from-next", d.name), "chunked evaluation through the dyn API differs", || json!({"case": case("dyn-chunked"), "chunks": chunks}));
+				}
+				r.cell("api:IndicatorInstanceDyn::over(chunked,mixed-with-next)");
+			}
+			Ok(None) => {}
+			Err(p) => r.violate(&format!("C09|{}|IndicatorInstanceDyn::over(chunked)|panic:{}", d.name, p.class()), &p.msg, || case("dyn-chunked")),
+		}
+	}
 	// clones
 	for k in [0usize, 1, 5, cs.len() / 2, cs.len() - 2] {
 		let res = guard(|| {
